@@ -3,6 +3,7 @@ package c13
 
 import (
 	"fmt"
+	"os"
 	"testing"
 	"time"
 
@@ -19,8 +20,12 @@ import (
 func TestMain(m *testing.M) { ev.Main(m) }
 
 func init() {
-	// the driver exports TZ=UTC; make the package self-contained for `go test` by hand.
-	time.Local = time.UTC
+	// the driver exports TZ=UTC; make the package self-contained for `go test` by hand. (Not
+	// assigned when TZ=UTC already: the write races - for the race detector - with timer
+	// goroutines started by the init functions of lindb packages.)
+	if os.Getenv("TZ") != "UTC" {
+		time.Local = time.UTC
+	}
 }
 
 const (
